@@ -337,7 +337,9 @@ func c28Cut(rng *rand.Rand, w *c28Write) {
 	sort.Ints(w.cuts)
 }
 
-func c28MsgNo(sess int, seq uint64) string { return "m" + strconv.Itoa(sess) + "-" + strconv.FormatUint(seq, 10) }
+func c28MsgNo(sess int, seq uint64) string {
+	return "m" + strconv.Itoa(sess) + "-" + strconv.FormatUint(seq, 10)
+}
 
 // ---------------------------------------------------------------- fakes
 
@@ -400,6 +402,8 @@ type c28Usecase struct {
 	faults   map[string]int
 	orders   map[string]int
 	unknown  int
+	// sessions that were part of a call with an injected batch fault
+	faultSess map[int]bool
 }
 
 func c28ParseUID(uid string) int {
@@ -492,6 +496,11 @@ func (u *c28Usecase) SendBatchEach(items []message.SendBatchItem, emit func(int,
 	fault := -1
 	if int((h>>32)%1000) < u.faultPermille {
 		fault = int((h >> 44) % 5)
+		u.mu.Lock()
+		for _, it := range items {
+			u.faultSess[c28ParseUID(it.Command.FromUID)] = true
+		}
+		u.mu.Unlock()
 	}
 	switch fault {
 	case 0:
@@ -582,10 +591,10 @@ func (o *c28Observer) OnConnectionClose(ev gatewaytypes.ConnectionEvent) {
 	o.closes[string(ev.CloseReason)]++
 	o.mu.Unlock()
 }
-func (o *c28Observer) OnAuth(gatewaytypes.AuthEvent)                 {}
-func (o *c28Observer) OnFrameIn(gatewaytypes.FrameEvent)             {}
-func (o *c28Observer) OnFrameOut(gatewaytypes.FrameEvent)            {}
-func (o *c28Observer) OnFrameHandled(gatewaytypes.FrameHandleEvent)  {}
+func (o *c28Observer) OnAuth(gatewaytypes.AuthEvent)                     {}
+func (o *c28Observer) OnFrameIn(gatewaytypes.FrameEvent)                 {}
+func (o *c28Observer) OnFrameOut(gatewaytypes.FrameEvent)                {}
+func (o *c28Observer) OnFrameHandled(gatewaytypes.FrameHandleEvent)      {}
 func (o *c28Observer) OnAsyncSendBatch(gatewaytypes.AsyncSendBatchEvent) {}
 func (o *c28Observer) OnAsyncSendDispatchWait(gatewaytypes.AsyncSendDispatchWaitEvent) {
 }
@@ -934,7 +943,7 @@ func c28RunCase(r *verifkit.Run, ci int, cfg *c28Cfg) (abort bool) {
 	cs := &c28Case{r: r, ci: ci, cfg: cfg, clk: &c28Clock{}, triggerCh: make(chan struct{})}
 	seed := c28Mix(r.Seed ^ c28Mix(uint64(ci)))
 	cs.uc = &c28Usecase{clk: cs.clk, seed: seed, itemErrPct: cfg.itemErrPct, faultPermille: cfg.faultPermille,
-		latMode: cfg.latMode, seen: make([]atomic.Int64, cfg.nSess), faults: map[string]int{}, orders: map[string]int{}}
+		latMode: cfg.latMode, seen: make([]atomic.Int64, cfg.nSess), faults: map[string]int{}, orders: map[string]int{}, faultSess: map[int]bool{}}
 	cs.pr = &c28Presence{handles: map[string]presence.SessionHandle{}}
 	cs.obs = &c28Observer{closes: map[string]int{}}
 
@@ -1255,6 +1264,25 @@ func (cs *c28Case) analyse(snapF c28Snap, finalWrites [][][]byte) {
 			r.Count("sessions.closed_by_harness", 1)
 		} else {
 			r.Count("sessions.closed_by_server", 1)
+			// Not asserted (the statement exempts closed sessions): a session that
+			// cannot have been rejected (ample queue, every SEND delivered before
+			// any fence), was never in a faulted usecase call and was not closed by
+			// the harness, yet was closed by the server. The only remaining cause
+			// is another session's failed sendack write (closed session) in a
+			// mixed-session batch: OnSendBatch returns that error and core closes
+			// every session of the batch.
+			lastT1 := int64(0)
+			for _, t := range s.sendT1 {
+				if t > lastT1 {
+					lastT1 = t
+				}
+			}
+			if !cfg.tight && !cs.stopped && !cs.uc.faultSess[i] && (firstCall < 0 || lastT1 < firstCall) {
+				r.Count("sessions.closed_collaterally_by_other_sessions_failed_write(not asserted)", 1)
+				if len(missing) > 0 {
+					r.Count("sends.unacked_on_collaterally_closed_sessions(not asserted)", len(missing))
+				}
+			}
 		}
 
 		// outbound RECV order
@@ -1381,15 +1409,17 @@ func TestVerifC28(t *testing.T) {
 	r.Assume("A session counts as 'stayed open' only if its connection was never closed when checked at a quiescent point (feeders/pushers joined, DrainSends returned nil); every SEND delivered on such a session was accepted because a rejected SEND closes the session.")
 	r.Assume("The gateway's own AsyncSendAdmissionObserver 'ok' events are trusted as the count of admitted SENDs for the global drain-completeness check.")
 
-	n := r.N(60, 1000)
+	n := r.N(60, 450)
 	for i := 0; i < n; i++ {
 		if r.Skip(i) {
 			continue
 		}
 		cfg := c28GenCfg(r, i)
 		r.BeginCase(i, cfg.desc())
+		started := time.Now()
 		if c28RunCase(r, i, cfg) {
 			return
 		}
+		r.Max("slowest_case_ms(wall, informational)", int(time.Since(started).Milliseconds()))
 	}
 }
